@@ -3,6 +3,8 @@ package ast
 import (
 	"fmt"
 	"os"
+	"slices"
+	"strings"
 	"sync"
 
 	"github.com/dominikbraun/graph"
@@ -46,7 +48,10 @@ func (tfg *TaskfileGraph) Visualize(filename string) error {
 }
 
 func (tfg *TaskfileGraph) Merge() (*Taskfile, error) {
-	hashes, err := graph.TopologicalSort(tfg.Graph)
+	// The order in which included Taskfiles are merged decides the order of the
+	// merged tasks and which value a variable defined twice ends up with, so it
+	// must not depend on map iteration order.
+	hashes, err := graph.StableTopologicalSort(tfg.Graph, func(a, b string) bool { return a < b })
 	if err != nil {
 		return nil, err
 	}
@@ -86,6 +91,14 @@ func (tfg *TaskfileGraph) Merge() (*Taskfile, error) {
 				if !ok {
 					return fmt.Errorf("task: Failed to get merge options")
 				}
+
+				// The same Taskfile may be included several times by one parent;
+				// the reader appends these includes in the order in which its
+				// goroutines finish, so put them in a fixed order first.
+				includes = slices.Clone(includes)
+				slices.SortStableFunc(includes, func(a, b *Include) int {
+					return strings.Compare(a.Namespace, b.Namespace)
+				})
 
 				// Merge the included Taskfiles into the parent Taskfile
 				for _, include := range includes {
